@@ -158,6 +158,13 @@ fn rich_signature(k: usize) -> (Vec<Spec>, Option<Spec>) {
         6 => (vec![Spec::Str], Some(Spec::Num)),
         7 => (vec![Spec::Union(vec![Spec::Null, Spec::Bool]), Spec::Arr], Some(Spec::Union(vec![Spec::Str, Spec::Expref]))),
         8 => (vec![typed(Spec::Obj), Spec::Union(vec![Spec::Num, typed(Spec::Str)])], None),
+        // signatures that accept any value still fix the number of arguments
+        10 => (vec![Spec::Any, Spec::Any], Some(Spec::Any)),
+        11 => (vec![Spec::Any], None),
+        12 => (vec![Spec::Any, Spec::Num], Some(Spec::Any)),
+        13 => (vec![], Some(Spec::Any)),
+        14 => (vec![], None),
+        15 => (vec![Spec::Any, Spec::Any, Spec::Any], None),
         _ => (vec![typed(typed(Spec::Union(vec![Spec::Num, Spec::Str]))), Spec::Bool], Some(typed(Spec::Bool))),
     }
 }
@@ -209,7 +216,9 @@ fn model_signature(k: usize, args: &[Arg]) -> Result<(), &'static str> {
     Ok(())
 }
 
-const ARG_TEXTS: [&str; 36] = [
+const ARG_TEXTS: [&str; 44] = [
+    // expression references whose body contains operators: the body extends as far as an expression does
+    "&a | b", "&a || `1`", "&a.b | [0]", "&b.c[-1] | d", "&!a", "&a == `1` | @", "&xs[*] | [0]", "&a && b || c",
     "xs[-1]", "xs[0]", "rows[-1].name", "[-1]", "b.c[-1].d", "xs[-2:]", "xs[1:]", "rows[*].name", "rows[?name == 'y'] | [0]", "@.a", "xs | [-1]", "b.c[0]", "*", "xs[5]", "xs[-5]", "b.c[-1]",
     "@", "`1`", "'s'", "`[1, 2]`", "`{\"a\": 1}`", "&@", "`-2.5`", "a", "`[[1], [2, 3]]`", "`[[1], [\"a\"]]`", "`[[\"a\"], [1]]`", "`[\"x\", [1], \"y\"]`",
     "`[[1], \"x\", [\"y\"]]`", "`true`", "`null`", "`[{}, {\"a\": 1}]`", "`[{}, 1]`", "`[]`", "`[[true], [false, true]]`", "`[[true], [1]]`",
@@ -248,7 +257,7 @@ pub fn run(args: &Args) {
                 3 | 4 => {
                     let id = next_id;
                     next_id += 1;
-                    let k = rng.below(10);
+                    let k = rng.below(16);
                     rt.register_function(name, Box::new(CustomFunction::new(signature(k).0, recorder(id, false))));
                     model.insert(name.to_string(), Entry::Signed(id, k));
                     trace.push(format!("register_signed({}, #{}, sig{})", name, id, k));
